@@ -717,10 +717,14 @@ Definition dgram_in (m : cm) (len : N) : cm * list Z :=
   | None => (wake_opt (set_dgin m (c_dgin m ++ [N.min len 1000]) None None) (c_wdg m), [0%Z])
   end.
 
+(* DatagramWriter::send_bytes: the frame form with the length field, 1 + varint(len) + len bytes, must
+   fit the peer's max_datagram_frame_size (1200 in the stream) *)
+Definition dg_vsz (v : N) : N :=
+  if v <? 64 then 1 else if v <? 16384 then 2 else if v <? 1073741824 then 4 else 8.
 Definition dgram_send (m : cm) (len : N) : cm * list Z :=
   match c_dgout_err m with
   | Some e => (m, [2%Z; Z.of_N e])
-  | None => if 1200 <? 1 + len then (m, [3; 0]%Z) else (set_dgout m (c_dgout m ++ [len]) None, [1; 0]%Z)
+  | None => if 1200 <? 1 + dg_vsz len + len then (m, [3; 0]%Z) else (set_dgout m (c_dgout m ++ [len]) None, [1; 0]%Z)
   end.
 
 Definition credit (m : cm) (n : N) : cm * list Z :=
